@@ -6,7 +6,7 @@
 From Coq Require Import ZArith List Bool.
 From LV Require Import Enc.EncBase Enc.Subrect Enc.SubrectProofs Enc.Raw Enc.RRE Enc.Hextile Enc.Zlib Enc.ZRLE
      Enc.Update Enc.RawRREProofs Enc.HextileProofs Enc.SplitProofs Enc.StreamProofs
-     Enc.ZRLEProofs1 Enc.ZRLEProofs4 Enc.ZRLEFormatProofs Enc.UpdateProofs Enc.Tight Enc.TightProofs Enc.TightSplit Enc.TightSplitProofs Enc.TightSessionProofs Enc.TightUniform Enc.TightSessionFull Enc.TightSplitTotal Enc.BytesProofs Enc.TotalProofs Enc.ZRLESendProofs Enc.Session Enc.SessionProofs
+     Enc.ZRLEProofs1 Enc.ZRLEProofs4 Enc.ZRLEFormatProofs Enc.UpdateProofs Enc.Tight Enc.TightProofs Enc.TightSplit Enc.TightSplitProofs Enc.TightSessionProofs Enc.TightUniform Enc.TightSessionFull Enc.TightSplitTotal Enc.BytesProofs Enc.TotalProofs Enc.ZRLETotal Enc.TightTotal Enc.SendAll Enc.ZRLESendProofs Enc.Session Enc.SessionProofs
      Dec.SpecPaint Dec.SpecRaw Dec.SpecRRE Dec.SpecHextile Dec.SpecZRLE Dec.SpecTight Dec.SpecUpdate Gen.Consts_C01.
 Import ListNotations.
 
@@ -333,20 +333,42 @@ Theorem C01_send_rect_zrle_format : forall W H p depth be tc rmax gmax bmax rs g
   partitions w h (rel_geoms x y rects).
 Proof. exact send_rect_zrle_format. Qed.
 
-(* ---- what is sent are bytes, and the mirror does not give up: Raw, encoding -1, RRE, CoRRE, Hextile, Zlib,
-   Ultra (ZRLE and Tight: not proved, see notes/C01.md "Not proved") ---- *)
+(* ---- what is sent are bytes (every item of header ++ payload in 0..255), and the mirror never gives up
+   (neither its own failure value Err nor "client closed") on a well-formed request whose line fits the
+   update buffer: every encoding of send_rect, and Tight ---- *)
 Theorem C01_send_rect_bytes : forall W H scr p x y w h rects,
   wf_grid W H scr -> x + w <= W -> y + h <= H ->
-  In (p_enc p) [c_encRaw; (-1)%Z; c_encRRE; c_encCoRRE; c_encHextile; c_encZlib; c_encUltra] ->
   send_rect p x y w h scr = Ok rects -> Forall (fun r => bytes_ok (wire_bytes r)) rects.
-Proof. exact send_rect_bytes. Qed.
+Proof. exact send_rect_bytes_all. Qed.
 
 Theorem C01_send_rect_total : forall W H scr p x y w h,
   wf_grid W H scr -> x + w <= W -> y + h <= H -> 1 <= w -> 1 <= h -> 1 <= p_bypp p ->
   p_bypp p * w <= bufsize -> 1 <= p_mw p -> 1 <= p_mh p ->
-  In (p_enc p) [c_encRaw; (-1)%Z; c_encRRE; c_encCoRRE; c_encHextile; c_encZlib; c_encUltra] ->
+  In (p_enc p) [c_encRaw; (-1)%Z; c_encRRE; c_encCoRRE; c_encHextile; c_encZlib; c_encUltra; c_encZRLE] ->
   exists rects, send_rect p x y w h scr = Ok rects.
-Proof. exact send_rect_total. Qed.
+Proof. exact send_rect_total_all. Qed.
+
+Theorem C01_zrle_tile_total : forall bypp cmode b15 tw th t, 1 <= tw -> 1 <= th -> wf_grid tw th t ->
+  exists bytes, zrle_tile bypp cmode b15 tw th t = Some bytes.
+Proof. exact zrle_tile_total. Qed.
+
+Theorem C01_tight_subrect_total : forall p w h g, 1 <= w -> 1 <= h -> wf_grid w h g -> conf_ok (tp_conf p) ->
+  exists o, tight_subrect p w h g = Some o.
+Proof. exact tight_subrect_total. Qed.
+
+Theorem C01_tight_session_total :
+  forall strict swapfix sbypp bypp bpp depth be tc rmax gmax bmax rs gs bs level quality lastrect W H x y w h scr sfb,
+  wf_grid W H scr ->
+  conf_ok (tp_conf (tight_params_of strict swapfix sbypp bypp bpp depth be tc rmax gmax bmax rs gs bs level quality)) ->
+  x + w <= W -> y + h <= H -> 1 <= w -> 1 <= h ->
+  exists rects, send_tight_session strict swapfix sbypp bypp bpp depth be tc rmax gmax bmax rs gs bs level quality lastrect x y w h scr sfb = Ok rects.
+Proof. exact send_tight_session_total. Qed.
+
+Theorem C01_tight_session_bytes :
+  forall strict swapfix sbypp bypp bpp depth be tc rmax gmax bmax rs gs bs level quality lastrect x y w h scr sfb rects,
+  send_tight_session strict swapfix sbypp bypp bpp depth be tc rmax gmax bmax rs gs bs level quality lastrect x y w h scr sfb = Ok rects ->
+  Forall (fun r => bytes_ok (wire_bytes r)) rects.
+Proof. exact send_tight_session_bytes. Qed.
 
 (* the fuel send_tight_session passes to the solid-area recursion is adequate *)
 Theorem C01_tight_split_total : forall sfb x y w h, 1 <= w -> 1 <= h ->
